@@ -57,20 +57,23 @@ Definition good_entry (keys msg : list N) (e : sparse_entry) : option (N * N) :=
   end.
 
 (** (all entries good, bits named by good ids, bits that get set) *)
-Definition spec_sparse (keys msg : list N) (ents : list sparse_entry) : bool * (N * N) :=
-  fold_left (fun (st : bool * (N * N)) e =>
-               let '(av, (ad, un)) := st in
-               match good_entry keys msg e with
-               | Some (n, t) => (av, (N.lor ad (bit n), N.lor un (bit t)))
-               | None => (false, (ad, un))
-               end) ents (true, (0, 0)).
+Fixpoint spec_sparse (keys msg : list N) (ents : list sparse_entry) : bool * (N * N) :=
+  match ents with
+  | [] => (true, (0, 0))
+  | e :: t =>
+      let '(av, (ad, un)) := spec_sparse keys msg t in
+      match good_entry keys msg e with
+      | Some (n, i) => (av, (N.lor ad (bit n), N.lor un (bit i)))
+      | None => (false, (ad, un))
+      end
+  end.
 
 Definition exp_merge_sparse (g : mreg) (hash : list N) (ents : list sparse_entry) : list N * N :=
   if negb (bytes_eqb (m_hash g) hash) then ([0; 0; 0; m_bits g], m_bits g)
   else
     let '(av, (ad, un)) := spec_sparse (m_keys g) (m_msg g) ents in
     let b' := N.lor (m_bits g) un in
-    ([b2n av; b2n (negb (N.eqb b' (m_bits g))); b2n (is_strict_superset ad (m_bits g)); b'], b').
+    ([b2n av; b2n (popcount (m_bits g) <? popcount b'); b2n (is_strict_superset ad (m_bits g)); b'], b').
 
 Definition matches_m (p o : mreg) : bool :=
   bytes_eqb (m_msg p) (m_msg o) && bytes_eqb (m_hash p) (m_hash o) && keys_eqb_m (m_keys p) (m_keys o).
